@@ -57,4 +57,24 @@ def baseOld (old : Option (Content × Nat)) : Obs :=
 def destF : Path := ["R", "dst", "f"]
 def tmpF : Path := ["R", "tmp", ".f#1"]
 
+/-! ### Worlds for the exhaustive exploration of the writer programs -/
+
+/-- Destination directory `R/dst`, TMPDIR candidates `R/tmp` (same file system) and `X` (another file system;
+    `R/missing` does not exist), an explicit temp dir `R/tmp2`, and optionally something at the destination. -/
+def worldFS (old : Option Inode) : FS :=
+  match old with
+  | none =>
+    { inodes := [dirInode, dirInode, dirInode, dirInode],
+      names := [(["R", "dst"], 0), (["R", "tmp"], 1), (["X"], 2), (["R", "tmp2"], 3)], fds := [] }
+  | some n =>
+    { inodes := [dirInode, dirInode, dirInode, dirInode, n],
+      names := [(destF, 4), (["R", "dst"], 0), (["R", "tmp"], 1), (["X"], 2), (["R", "tmp2"], 3)], fds := [] }
+
+def worldOld (old : Option Inode) : Obs := old.map fun n => (nodeOf n n.data, [])
+
+def exOldFile : Inode := { kind := .file, mode := 0o644, data := [⟨0, 0, 100⟩], target := "", clean := true }
+def exOldLink : Inode := { kind := .symlink, mode := 0o777, data := [], target := "old-target", clean := true }
+def exChunks : List Seg := [⟨1, 0, 4096⟩, ⟨1, 4096, 904⟩]
+def exTmp : Path → Bool := isTemp [["R", "tmp"], ["X"], ["R", "tmp2"]] ["R", "dst"] [".f"]
+
 end PB.FsAtomic
